@@ -149,6 +149,21 @@ def c2(rep, cov, tier):
                 continue
             if t in targets or ("<call>" in targets and t in call_texts):
                 ok = True
+        # a label that says it marks the FIRST use / instance of a name must contain the first occurrence of that name in
+        # the declaration (three spellings of one name: the later two are each a duplicate of the first)
+        for d in hit:
+            for lab in [d["primary"]] + d["secondary"]:
+                if lab["file"] != "unit.st" or not re.search(r"(?i)\bfirst\b", lab.get("msg", "")):
+                    continue
+                name = tb[lab["start"]:lab["end"]].decode("utf-8", "replace").split("#")[-1].strip()
+                b0 = tb.rfind(b"TYPE", 0, lab["start"])
+                b1 = tb.find(b"END_TYPE", lab["start"])
+                if not name or b0 < 0 or b1 < 0:
+                    continue
+                m = re.search(r"(?i)(?<![A-Za-z0-9_])%s(?![A-Za-z0-9_])" % re.escape(name), tb[b0 + 4:b1].decode("utf-8", "replace"))
+                if m and not (lab["start"] <= b0 + 4 + m.start() < lab["end"]):
+                    rep.add("label-says-first-but-is-not-the-first-occurrence:%s" % e[0].split(":")[1], labels=labels,
+                            detail={"edit": e, "label": lab, "first_occurrence_at": b0 + 4 + m.start()}, replay=replay)
         if not ok:
             rep.add("label-does-not-cover-the-construct:%s" % e[0].split(":")[1], labels=labels,
                     detail={"edit": e, "allowed_lexemes": sorted(targets), "labelled_text": seen,
